@@ -582,7 +582,8 @@ def run(ctx):
         "model_operations_compared": ops_compared,
         "model_agrees_with_code_as_committed": agree, "model_agrees_only_with_a_pre_repair_variant": agree_fixed, "pre_repair_modes_seen": modes_seen,
         "disagreements_checked": disagree + bad,
-        "f9_runs": f9_cases, "f45h_result_overwrite_runs": resover_cases, "f46_orphan_runs": f46_cases, "f28_probes": len(f28), "f28_bad": f28_bad,
+        "f9_runs": f9_cases, "f45h_result_overwrite_runs": resover_cases, "f46_orphan_runs": f46_cases, "value_probes_on_real_environment": len(f28), "value_probes_bad": f28_bad,
+        "corpus_preemption_probes_that_preempted": sum(1 for (l, m), pr in zip(cases, parsed) if "select_preempt" in str(m.get("origin")) and int(pr[2].get("preempted", "0")) > 0),
         "histogram_quantum": {str(k): v for k, v in sorted(hist_q.items(), key=lambda x: str(x[0]))},
         "histogram_workers": {str(k): v for k, v in sorted(hist_w.items(), key=lambda x: str(x[0]))},
         "histogram_program_features": hist_feat,
